@@ -207,7 +207,7 @@ constraint:
 			if len(c.IndexedColumns) == 1 {
 				// could this column be an alias for the rowid?
 				n := st.Column(c.IndexedColumns[0].Column)
-				if n < 0 {
+				if n < 0 || c.IndexedColumns[0].Expression != "" {
 					// unknown column, or an expression
 					return nil, ErrInvalidDef
 				}
@@ -222,7 +222,7 @@ constraint:
 			if ct.WithoutRowid {
 				for _, co := range c.IndexedColumns {
 					col := st.column(co.Column)
-					if col == nil {
+					if col == nil || co.Expression != "" {
 						return nil, ErrInvalidDef
 					}
 					col.Null = false
@@ -270,7 +270,7 @@ func (st *Schema) toIndexColumns(ci []sql.IndexedColumn) []IndexColumn {
 			Expression: col.Expression,
 			SortOrder:  col.SortOrder,
 		}
-		if col.Column != "" {
+		if col.Expression == "" {
 			// not an expression column
 			base := st.column(col.Column)
 			if base != nil {
